@@ -15,7 +15,7 @@ import (
 
 func TestVerifReplayC13(t *testing.T) {
 	fails := 0
-	values := []string{"hello world", "world", "foo (bar", "a.c", "x+y=z", "[brackets", "back\\slash", "foo \xff bar", "one two three four five six", "*", "the quick brown fox", "end"}
+	values := []string{"hello world", "world", "foo (bar", "a.c", "x+y=z", "[brackets", "back\\slash", "foo \xff bar", "one two three four five six", "*", "the quick brown fox", "end", "hello ", " world", "a b "}
 	for _, v := range values {
 		func() {
 			defer func() {
@@ -31,7 +31,7 @@ func TestVerifReplayC13(t *testing.T) {
 	if fails > 0 {
 		t.Fatalf("%d failing inputs", fails)
 	}
-	unknowns := []string{"hello world", "say hello world", "hello world again and again", "prefix text then the quick brown fox and more words after it", "it is the end", "end", "one two three four five six", "zzz one two three four five six zzz", "x+y=z", "see x+y=z here", "abc", "a.c"}
+	unknowns := []string{"hello world", "say hello world", "hello world again and again", "prefix text then the quick brown fox and more words after it", "it is the end", "end", "one two three four five six", "zzz one two three four five six zzz", "x+y=z", "see x+y=z here", "abc", "a.c", "a hello ", "say hello  x", "x a b ", "hello "}
 	for _, v := range values {
 		if strings.Contains(v, "\xff") || v == "*" || v == "[brackets" || v == "foo (bar" || v == "back\\slash" {
 			continue
@@ -48,7 +48,10 @@ func TestVerifReplayC13(t *testing.T) {
 					fmt.Printf("REPLAY-FAIL C13 value %q unknown %q: match %+v outside (0,1] or outside the %d-byte normalised unknown\n", v, u, *m, len(norm))
 				}
 			}
-			if idx := strings.Index(norm, v); idx >= 0 && wordBounded(norm, idx, len(v)) {
+			// exactness is only checked for values that begin and end with a token:
+			// Offset/Extent are derived from token positions and cannot include
+			// leading or trailing whitespace of a value (observation, see DESIGN.md)
+			if idx := strings.Index(norm, v); idx >= 0 && wordBounded(norm, idx, len(v)) && strings.TrimSpace(v) == v {
 				found := false
 				for _, m := range c.MultipleMatch(u) {
 					if m.Confidence == 1.0 && m.Offset == idx && m.Extent == len(v) {
